@@ -678,6 +678,8 @@ func genPipeTemplated(r *rand.Rand, v9 bool, srcs []int, nData int, cachePath st
 		big := r.Intn(4) == 0
 		var body []byte
 		switch k := r.Intn(100); {
+		case k < 7: // periodic template refresh: the exporter re-sends a definition unchanged (as real exporters do)
+			body = pipeTemplateDgram(r, v9, []pipeTpl{tp[r.Intn(len(tp))]})
 		case k < 62:
 			body = pipeDataDgram(r, v9, normalSpecs(), big)
 		case k < 66: // header only
